@@ -361,6 +361,7 @@ REQUIRED_PROBES = {
     "C40": ["probe_reserve_cas_lost", "probe_reserve_low", "probe_bucket_parked",
             "probe_put_resumes_parked_bucket", "probe_multi_group_sections"],
     "C07": ["probe_multi_group_sections", "pointers_checked", "unterminated_runs"],
+    "C10": ["eh_lsda_functions_checked", "eh_checked_functions", "eh_fdes"],
     "C39": ["probe_request_before_activation_finished", "probe_send_woke_parked_worker",
             "probe_swap_with_new_work", "probe_delayed_group_drained"],
 }
